@@ -121,3 +121,61 @@ Example c17_nonvacuous_moz :
   moz_lookup {| cache_rel := [97]; server_rel := [97;47;49;47;195;169] |}
   = Ret {| cache_rel := [97]; server_rel := [97;47;49;47;95] |}.
 Proof. vm_compute. reflexivity. Qed.
+
+(* ====================================================================================
+   URL joining as the code does it: http.rs join_rel (percent-encoding) followed by
+   Url::join, i.e. WHATWG reference resolution against an http(s) base (C17/UrlModel.v:
+   input trimming, scheme detection, the relative / absolute-path / authority / query /
+   fragment branches, pop_path, segment splitting on '/' and '\', the PATH percent-encode
+   set, single- and double-dot segments in all nine + three spellings).
+   [request_path base_path rel] is the path of the URL requested for [rel]; [None] means
+   the reference selected another scheme or authority.  [bytes]: every element is 0..255. *)
+From RM Require Import C17.UrlModel C17.UrlProofs.
+
+(* every safe relative byte path: the encoded reference is a plain relative path (no scheme,
+   authority, query or fragment can be parsed from it) and resolution only appends to the base
+   directory — for EVERY base path *)
+Theorem c17_url_join_contained : forall base_path p, bytes p -> safe_rel p ->
+  exists r, request_path base_path p = Some r /\
+            ((p = [] /\ r = base_path) \/ exists t, r = base_dir base_path ++ t).
+Proof. exact url_join_contained. Qed.
+Print Assumptions c17_url_join_contained.
+
+(* hence every server path the builders produce (all byte strings, hex ids, all kinds, and the
+   mozilla-CAB variant) is requested below the base directory *)
+Theorem c17_url_requests_contained : forall base_path kind code_file debug_file dbg_id code_id l,
+  bytes code_file -> opt_bytes debug_file -> opt_hex dbg_id -> opt_hex code_id ->
+  lookup kind code_file debug_file dbg_id code_id = Some l ->
+  (exists r, request_path base_path (server_rel l) = Some r /\ is_prefix (base_dir base_path) r = true) /\
+  (forall l', moz_lookup l = Ret l' ->
+     exists r, request_path base_path (server_rel l') = Some r /\ is_prefix (base_dir base_path) r = true).
+Proof. exact url_requests_contained. Qed.
+Print Assumptions c17_url_requests_contained.
+
+Theorem c17_url_code_info_contained : forall base_path code_file code_id p,
+  bytes code_file -> opt_hex code_id ->
+  code_info_breakpad_sym_lookup code_file code_id = Some p ->
+  exists r, request_path base_path p = Some r /\ is_prefix (base_dir base_path) r = true.
+Proof. exact url_code_info_contained. Qed.
+Print Assumptions c17_url_code_info_contained.
+
+(* F-C17b: without join_rel's encoding (the tree before f01a962) paths that satisfy the three
+   conditions leave the base directory /root/ or the server *)
+Theorem c17_url_unencoded_refuted :
+  let root := [47;114;47] in                                         (* "/r/" *)
+  safe_relb [37;50;69;37;50;69;47;48;47;120] = true /\               (* "%2E%2E/0/x" *)
+  url_join_path root [37;50;69;37;50;69;47;48;47;120] = Some [47;48;47;120] /\   (* "/0/x" *)
+  safe_relb [9;47;48;47;120] = true /\ url_join_path root [9;47;48;47;120] = Some [47;48;47;120] /\  (* TAB leaf *)
+  safe_relb [46;9;46;47;48] = true /\ url_join_path root [46;9;46;47;48] = Some [47;48] /\           (* ".<TAB>./0" *)
+  safe_relb [97;98;58;99;47;48] = true /\ url_join_path root [97;98;58;99;47;48] = None.            (* "ab:c/0" *)
+Proof. cbv zeta. repeat split; vm_compute; reflexivity. Qed.
+Print Assumptions c17_url_unencoded_refuted.
+
+(* with the encoding the same leaves stay below /r/ *)
+Example c17_nonvacuous_url :
+  request_path [47;114;47] [37;50;69;37;50;69;47;48;47;120]
+    = Some [47;114;47;37;50;53;50;69;37;50;53;50;69;47;48;47;120] /\        (* /r/%252E%252E/0/x *)
+  request_path [47;114;47] [46;9;46;47;48] = Some [47;114;47;46;37;48;57;46;47;48] /\   (* /r/.%09./0 *)
+  request_path [47;114;47;105] [46;47;97;32;195;169] = Some [47;114;47;97;37;50;48;37;67;51;37;65;57] /\ (* "./a é" on /r/i -> /r/a%20%C3%A9 *)
+  url_join_path [47;114;47;115;47] [46;46;47;46;46;47;46;46;47;120] = Some [47;120].      (* the model pops, never above "/" *)
+Proof. repeat split; vm_compute; reflexivity. Qed.
